@@ -188,6 +188,9 @@ func BuildSwitchMessage(r *rec.Rec) (util.Message, error) {
 		f := of.NewFeaturesReply()
 		binary.BigEndian.PutUint64(f.DPID, r.U("datapath_id"))
 		f.Buffers, f.NumTables, f.AuxilaryId, f.Capabilities, f.Actions = r.U32("n_buffers"), r.U8("n_tables"), r.U8("auxiliary_id"), r.U32("capabilities"), r.U32("reserved")
+		for _, pr := range r.List("ports") { // the library's (OpenFlow 1.0 style) trailing port list; round trip only
+			f.Ports = append(f.Ports, *buildPort(pr))
+		}
 		setXid(&f.Header, r)
 		return f, nil
 	case "get_config_reply":
